@@ -269,6 +269,21 @@ func svCheckParse(a *svAcc, s string, full bool) bool {
 		if want == "ok" {
 			accepted = true
 		}
+		if full && ei == 3 {
+			// the secondary input path: UnmarshalText accepts exactly what the parser's grammar accepts (default rule)
+			var u sem.Ver
+			uerr := u.UnmarshalText([]byte(s))
+			if (uerr == nil) != (want == "ok") {
+				a.fail("C03.unmarshaltext.exact", svParseLine(e.name, ml, s), "%q: UnmarshalText -> %+v %v, expected %s", s, u, uerr, want)
+			} else if uerr != nil {
+				if typed, _ := semPE(uerr); !typed {
+					a.fail("C03.typed", svParseLine(e.name, ml, s), "%q: UnmarshalText error %T does not wrap *sem.ParseError", s, uerr)
+				}
+				if u != (sem.Ver{}) {
+					a.fail("C03.zero", svParseLine(e.name, ml, s), "%q: UnmarshalText left %+v next to its error", s, u)
+				}
+			}
+		}
 		for variant := 0; variant < 2; variant++ {
 			var v sem.Ver
 			var err error
@@ -899,6 +914,20 @@ func propC03(c *Ctx) {
 		c.Check("valid " + svText(v) + "|" + v.Build)
 		checkValid(v, i < 2500 || i%40 == 0)
 	}
+	// 6b'. long fields (lists of 37..400 identifiers, identifiers of 9..1000 bytes) in either field
+	for _, v := range svLongFieldValues() {
+		c.Check("valid.long " + svText(v))
+		if len(svText(v))+1 > 1024 {
+			func() {
+				defer svSetMax(0)()
+				checkValid(v, false)
+			}()
+			continue
+		}
+		checkValid(v, true)
+	}
+	// 7. deterministic tables: near misses of hand-picked texts and long inputs, every entry point
+	svNearAndLongC03(c, acc)
 	// 6c. the recorded interpretation: a valid value whose text exceeds MaxInputLength does not round-trip
 	// under the default limit (ErrInputTooLong) and does with the limit disabled. Not a violation.
 	long := sem.Ver{Major: 1, PreRelease: strings.Repeat("a.", 520) + "a"}
@@ -1072,11 +1101,14 @@ func svCheckAllCmp(a *svAcc, key string, va, vb sem.Ver, want int) {
 	if r := va.Compare(vb); r != want {
 		a.fail(key+".Ver.Compare", svCmpLine(va, vb), "%v vs %v: %d, expected %d", va, vb, r, want)
 	}
+	// latest-of-two: the higher one; on equal precedence either argument (the property says "one of its two
+	// arguments and never the lower one")
 	wantL := va
 	if want == -1 {
 		wantL = vb
 	}
-	if l := va.Latest(vb); l != wantL {
+	okL := func(l sem.Ver) bool { return l == wantL || (want == 0 && (l == va || l == vb)) }
+	if l := va.Latest(vb); !okL(l) {
 		a.fail(key+".Ver.Latest", svCmpLine(va, vb), "%v vs %v: %+v, expected %+v", va, vb, l, wantL)
 	}
 	ta, tb := svText(va), svText(vb)
@@ -1112,7 +1144,7 @@ func svCheckAllCmp(a *svAcc, key string, va, vb sem.Ver, want int) {
 	l, err = sem.LatestTag("v"+ta, "v"+tb)
 	ls = append(ls, lres{"LatestTag", l, err})
 	for _, x := range ls {
-		if x.err != nil || x.v != wantL {
+		if x.err != nil || !okL(x.v) {
 			a.fail(key+"."+x.name, "sem.latest Parse "+strconv.Itoa(sem.MaxInputLength)+" "+hx([]byte(ta))+" "+hx([]byte(tb)), "%q vs %q: %+v %v, expected %+v", ta, tb, x.v, x.err, wantL)
 		}
 	}
@@ -1273,7 +1305,7 @@ func propC06(c *Ctx) {
 			if want == -1 {
 				wantL = vb
 			}
-			if l := va.Latest(vb); l != wantL {
+			if l := va.Latest(vb); l != wantL && !(want == 0 && l == vb) { // equal precedence: either argument
 				acc.fail("C06.Ver.Latest", svCmpLine(va, vb), "%v vs %v: %+v, expected %+v", va, vb, l, wantL)
 			}
 		}
@@ -1349,6 +1381,34 @@ func propC06(c *Ctx) {
 		}
 	}
 	svCount(c, int64(chainN))
+
+	// 3'. late differences: long identifiers (9..256 bytes), 19..300-digit numbers, lists of 37..400 identifiers
+	lateN := 0
+	for i, p := range svLatePairs() {
+		pa, pb := svParsePre(p.a), svParsePre(p.b)
+		want, ex := svSpecCmpPre(&pa, &pb)
+		if ex {
+			continue
+		}
+		lateN++
+		if got := sem.DefaultComparePreRelease(p.a, []byte(p.b)); got != want {
+			acc.fail("C06.pre", "sem.cmppre "+hx([]byte(p.a))+" "+hx([]byte(p.b)), "%q vs %q: %d, expected %d", p.a, p.b, got, want)
+		}
+		va, vb := svLateVers(p, i)
+		ml := 1024
+		if len(svText(va))+1 > 1024 || len(svText(vb))+1 > 1024 {
+			ml = 0
+		}
+		func() {
+			defer svSetMax(ml)()
+			svCheckAllCmp(acc, "C06.late", va, vb, want)
+		}()
+		for d := 0; d < 2; d++ {
+			k++
+			svEmitCmp(c, va, vb, k, ml)
+		}
+	}
+	svCount(c, int64(lateN))
 
 	// 4. random pairs of long identifier lists with 1-25 digit numeric identifiers (limit disabled)
 	restore := svSetMax(0)
@@ -1565,8 +1625,11 @@ func svCheckHelpers(a *svAcc, ta, tb string, bytesForm bool) {
 			if kind == 0 && r != va.Compare(vb) {
 				a.fail("C14.helper.cmp", line, "%q %q: %d, values compare %d", ta, tb, r, va.Compare(vb))
 			}
-			if kind == 1 && l != va.Latest(vb) {
-				a.fail("C14.helper.latest", line, "%q %q: %+v, values give %+v", ta, tb, l, va.Latest(vb))
+			if kind == 1 {
+				cmp := va.Compare(vb)
+				if (l != va && l != vb) || (cmp == -1 && l != vb) || (cmp == 1 && l != va) {
+					a.fail("C14.helper.latest", line, "%q %q: %+v, values compare %d (Ver.Latest gives %+v)", ta, tb, l, cmp, va.Latest(vb))
+				}
 			}
 		}
 	}
@@ -1703,6 +1766,30 @@ func propC14(c *Ctx) {
 	}
 	svCount(c, int64(nm))
 
+	// 2'. late differences (long identifiers, long numbers, long lists): coherence, helpers, ops
+	for i, p := range svLatePairs() {
+		pa, pb := svParsePre(p.a), svParsePre(p.b)
+		va, vb := svLateVers(p, i)
+		spec, ex := svSpecCmpVer([3]uint64{va.Major, va.Minor, va.Patch}, [3]uint64{vb.Major, vb.Minor, vb.Patch}, &pa, &pb)
+		c.Check("late " + p.a + " " + p.b)
+		svCheckOrder(acc, va, vb, "q.0", i, spec, !ex)
+		if i%3 == 0 {
+			ml := 1024
+			if len(svText(va))+1 > 1024 || len(svText(vb))+1 > 1024 {
+				ml = 0
+			}
+			func() {
+				defer svSetMax(ml)()
+				svCheckHelpers(acc, svText(va), "v"+svText(vb), i%2 == 0)
+			}()
+			svCheckNext(acc, va, &pa)
+			k++
+			svEmitCmp(c, va, vb, k, ml)
+		}
+	}
+	// 2''. near misses of hand-picked texts through every string helper
+	svHelperNearMisses(c, acc)
+
 	// 3. string helpers on invalid texts: an error exactly when a text is invalid for the helper
 	nSp := 6000
 	if c.Thorough {
@@ -1815,4 +1902,270 @@ func propC14(c *Ctx) {
 	}
 	svCount(c, int64(nn)*3)
 	c.Note("Next*: %d versions x {major, minor, patch}, cores include 2^64-1 and 2^64-2 in every position", nn)
+}
+
+// ------------------------------------------------------------------------- long inputs, late differences, near misses
+//
+// Deterministic tables (never behind a stride or a probability): (1) identifier lists and single identifiers of every
+// part of the grammar at lengths up to the 1024-byte input limit and beyond it with the limit lifted; (2) pre-release
+// pairs whose first difference comes late (byte 10, 11, 31, 63, last; identifier 37, 64, 65, last); (3) the near misses
+// a lenient implementation would forgive, applied to every hand-picked base text, for every parser entry point and every
+// string helper.
+
+var svNearBases = []string{"1.2.3", "v1.2.3", "0.0.0", "v0.0.0", "1.0.0-alpha.1", "v10.20.30-rc.1+build.5", "1.0.0+001", "18446744073709551615.0.0-0",
+	"v0.1.0-x-y.z+exp.sha.5114f85", "1.0.0-rc-1", "v2.0.0+b"}
+
+// svFullWidth replaces the first (or every) ASCII digit by its full-width form U+FF10..U+FF19.
+func svFullWidth(t string, all bool) string {
+	var sb strings.Builder
+	done := false
+	for i := 0; i < len(t); i++ {
+		if svDigit(t[i]) && (all || !done) {
+			sb.WriteString(string(rune(0xFF10 + int(t[i]-'0'))))
+			done = true
+			continue
+		}
+		sb.WriteByte(t[i])
+	}
+	return sb.String()
+}
+
+// svNearMisses: texts one forgiving step away from t (some of them are valid again: the recogniser decides).
+func svNearMisses(t string) []string {
+	seen := map[string]bool{t: true}
+	var out []string
+	add := func(s string) {
+		if !seen[s] {
+			seen[s] = true
+			out = append(out, s)
+		}
+	}
+	for _, w := range []string{"\n", "\r\n", " ", "\t", "\x00", "\r", "\xef\xbb\xbf", " ", "\v", "\f"} {
+		add(t + w)
+		add(w + t)
+		add(w + t + w)
+	}
+	body := strings.TrimPrefix(t, "v")
+	for _, p := range []string{"V", "vv", "vV", "Vv", "v", "", "=", "v ", "v.", "ｖ", "version", "v=", "^", "~"} {
+		add(p + body)
+	}
+	add(svFullWidth(t, false))
+	add(svFullWidth(t, true))
+	add(t + t[len(t)-1:])
+	add(t[:len(t)-1])
+	add(strings.ToUpper(t))
+	add(strings.ToLower(t))
+	add(`"` + t + `"`)
+	add("'" + t + "'")
+	add(strings.Replace(t, ".", ". ", 1))
+	add(strings.Replace(t, ".", ",", 1))
+	add(strings.Replace(t, ".", "..", 1))
+	add(strings.Replace(t, "-", "_", 1))
+	add(strings.Replace(t, "-", "--", 1))
+	add(strings.Replace(t, "+", " ", 1))
+	add(strings.Replace(t, "+", "++", 1))
+	add(t + ".")
+	add(t + "-")
+	add(t + "+")
+	add(t + ".0")
+	add("0" + t)
+	add("+" + t)
+	add("-" + t)
+	return out
+}
+
+var svLongCyc = []string{"a", "7", "b2", "-", "0", "x-y", "10", "Z"}
+
+// svLongList: n identifiers, valid for a pre-release and for build metadata.
+func svLongList(n int) string {
+	ids := make([]string, n)
+	for i := range ids {
+		ids[i] = svLongCyc[i%len(svLongCyc)]
+	}
+	return strings.Join(ids, ".")
+}
+
+const svLongAlpha = "feature-login-page-abcdefghijklmnopqrstuvwxyzABCDEFGHIJKLMNOPQRSTUVWXYZ-"
+
+// svLongIdent: an alphanumeric identifier of n bytes (starts with a letter, no digits at all).
+func svLongIdent(n int) string {
+	b := make([]byte, n)
+	for i := range b {
+		b[i] = svLongAlpha[i%len(svLongAlpha)]
+	}
+	return string(b)
+}
+
+var (
+	svListLens  = []int{37, 38, 63, 64, 65, 66, 100, 127, 128, 129, 200, 255, 256, 257, 300, 400}
+	svIdentLens = []int{9, 10, 11, 12, 15, 16, 17, 31, 32, 33, 63, 64, 65, 100, 127, 128, 129, 200, 255, 256, 257, 500, 1000}
+)
+
+// svLongTexts: version texts (no v) whose pre-release / build lists or single identifiers / core numbers are long.
+// Valid and invalid ones; the recogniser decides. Texts above 1024 bytes are meant for a lifted limit.
+func svLongTexts() []string {
+	var out []string
+	for _, n := range svListLens {
+		l := svLongList(n)
+		out = append(out, "1.2.3-"+l, "1.2.3+"+l, "1.2.3-rc.1+"+l, "1.2.3-"+l+"+b", "1.2.3-"+svLongList(n/2)+"+"+svLongList(n-n/2),
+			"1.2.3-"+l+".01", "1.2.3+"+l+".01", "1.2.3-"+l+".", "1.2.3+"+l+"..a", "1.2.3+"+svLongList(n-1)+".é", "1.2.3-"+l+"+")
+	}
+	for _, n := range svIdentLens {
+		a, z, nine := svLongIdent(n), strings.Repeat("0", n), strings.Repeat("9", n)
+		out = append(out, "1.2.3-"+a, "1.2.3+"+a, "1.2.3-x."+a, "1.2.3+x."+a, "1.2.3+"+z, "1.2.3-"+z, "1.2.3-1"+z[1:], "1.2.3+"+nine, "1.2.3-"+nine,
+			"1.2.3-"+a+"_", "1.2.3+"+a+"_", "1"+z[1:]+".2.3", "1.1"+z[1:]+".3", "1.2.1"+z[1:], "0"+nine+".2.3")
+	}
+	return out
+}
+
+// svNearAndLongC03 runs the tables through the five parser entry points (and UnmarshalText, inside svCheckParse).
+func svNearAndLongC03(c *Ctx, acc *svAcc) {
+	all := func(s string, ml int) {
+		c.Check("table " + strconv.Itoa(ml) + " " + s)
+		svCheckParseML(acc, s, ml)
+		for ei := range svEntries {
+			c.Op(svParseLine(svEntries[ei].name, ml, s))
+		}
+	}
+	for _, b := range svNearBases {
+		all(b, 1024)
+		for _, s := range svNearMisses(b) {
+			all(s, 1024)
+		}
+	}
+	k := 0
+	for _, s := range svLongTexts() {
+		for _, t := range []string{s, "v" + s} {
+			k++
+			ml := 1024
+			if len(t) > 1024 {
+				ml = 0
+			}
+			c.Check("long " + t)
+			svCheckParseML(acc, t, ml)
+			c.Op(svParseLine(svEntries[k%5].name, ml, t))
+			c.Op(svParseLine("Default", ml, t))
+			if len(t) <= 1024 && k%3 == 0 {
+				svCheckParseML(acc, t, 0)
+				svCheckParseML(acc, t, len(t))
+			}
+		}
+	}
+}
+
+// svLongFieldValues: version values whose PreRelease / Build are long (for Valid <=> round trip).
+func svLongFieldValues() []sem.Ver {
+	var out []sem.Ver
+	for _, n := range svListLens {
+		l := svLongList(n)
+		out = append(out, sem.Ver{Major: 1, Build: l}, sem.Ver{Minor: 2, PreRelease: l}, sem.Ver{Patch: 3, PreRelease: "rc.1", Build: l},
+			sem.Ver{Major: 1, Build: l + ".01"}, sem.Ver{Major: 1, PreRelease: l + ".01"}, sem.Ver{Major: 1, Build: l + "."}, sem.Ver{Major: 1, PreRelease: "a", Build: l + "..b"})
+	}
+	for _, n := range svIdentLens {
+		a, z := svLongIdent(n), strings.Repeat("0", n)
+		out = append(out, sem.Ver{Major: 1, Build: a}, sem.Ver{Major: 1, PreRelease: a}, sem.Ver{Major: 1, Build: z}, sem.Ver{Major: 1, PreRelease: z},
+			sem.Ver{Major: 1, PreRelease: "1" + z[1:]}, sem.Ver{Major: 1, Build: a + "_"}, sem.Ver{Major: 1, PreRelease: "x." + a + ".y", Build: "x." + a})
+	}
+	return out
+}
+
+type svPrePair struct{ a, b string }
+
+// svLatePairs: valid pre-release pairs whose first difference comes late.
+func svLatePairs() []svPrePair {
+	var out []svPrePair
+	add := func(a, b string) {
+		out = append(out, svPrePair{a, b}, svPrePair{b, a})
+	}
+	for _, n := range svIdentLens {
+		if n > 300 {
+			continue
+		}
+		a := svLongIdent(n)
+		for _, pos := range []int{9, 10, 11, 15, 16, 30, 31, 32, 62, 63, 64, n - 2, n - 1} {
+			if pos < 1 || pos >= n {
+				continue
+			}
+			b := []byte(a)
+			if b[pos] == 'q' {
+				b[pos] = 'Q'
+			} else {
+				b[pos] = 'q' // letters on both sides: outside the excluded departure
+			}
+			add(a, string(b))
+			add("rc."+a+".1", "rc."+string(b)+".1")
+		}
+		add(a, a+"x")
+		add(a, a+"-")
+		add(a, a[:n-1])
+		add(a+".1", a+".2")
+		add(a, a)
+	}
+	for _, d := range []int{19, 20, 21, 26, 27, 28, 30, 38, 39, 40, 64, 100, 300} {
+		n1 := "1" + strings.Repeat("0", d-1)
+		n2 := n1[:d-1] + "1"
+		n3 := n1[:d/2] + "1" + n1[d/2+1:]
+		add(n1, n2)
+		add(n1, n3)
+		add(n2, n3)
+		add(n1, n1+"0")
+		add(strings.Repeat("9", d), n1+"0")
+		add(strings.Repeat("9", d), n1)
+		add("x."+n1+".y", "x."+n2+".y")
+		add(n1, n1+"a")
+		add(n1, "a")
+	}
+	for _, n := range svListLens {
+		l := svLongList(n)
+		ids := strings.Split(l, ".")
+		for _, at := range []int{36, 37, 63, 64, 65, n - 1} {
+			if at >= n {
+				continue
+			}
+			m := append([]string{}, ids...)
+			if m[at] == "0" {
+				m[at] = "1"
+			} else if svAllDigits(m[at]) {
+				m[at] = m[at] + "1"
+			} else {
+				m[at] = m[at] + "q"
+			}
+			add(l, strings.Join(m, "."))
+		}
+		add(l, l+".0")
+		add(l, l+".a")
+		add(l, strings.Join(ids[:n-1], "."))
+		add(l, l)
+	}
+	return out
+}
+
+// svLateVers builds the two versions of the k-th late pair (same core, varying build metadata).
+func svLateVers(p svPrePair, k int) (sem.Ver, sem.Ver) {
+	core := svCores[k%5] // small cores: the texts stay below 1024 bytes for the 1024-limit runs
+	return svVer(core, p.a, svBuilds[k%len(svBuilds)]), svVer(core, p.b, svBuilds[(k+3)%len(svBuilds)])
+}
+
+// svHelperNearMisses: every near miss of every base text through the six string helpers, in both argument positions.
+func svHelperNearMisses(c *Ctx, acc *svAcc) {
+	k := 0
+	for _, base := range svNearBases {
+		for _, nm := range append([]string{base}, svNearMisses(base)...) {
+			for _, other := range []string{"1.0.0-rc.1", "v1.0.0-rc.1"} {
+				c.Check("helper-near " + nm + " " + other)
+				svCheckHelpers(acc, nm, other, false)
+				svCheckHelpers(acc, other, nm, true)
+				svCheckHelpers(acc, nm, nm, false)
+				for _, e := range svHelperEntries {
+					k++
+					ha, hb := hx([]byte(nm)), hx([]byte(other))
+					if k%2 == 0 {
+						ha, hb = hb, ha
+					}
+					c.Op("sem.cmpstr " + e + " 1024 " + ha + " " + hb)
+					c.Op("sem.latest " + e + " 1024 " + hb + " " + ha)
+				}
+			}
+		}
+	}
 }
